@@ -74,6 +74,13 @@ theorem prev_reading_is_reading (x : Ctx F) (name : String) (hne : x.cs.length â
   have b : (x.i == 0) = false := by simp [hi]
   simp [a, b]
 
+/-- **prev_reading at the first candle is `None`** â€“ it never wraps round to the newest candle (index `-1`), whatever that candle
+holds; likewise on an empty list. -/
+theorem prev_reading_at_zero (x : Ctx F) (name : String) (h : x.cs.length = 0 âˆ¨ x.i = 0) :
+    x.prevReading name = .ok .none := by
+  unfold Ctx.prevReading
+  rcases h with h | h <;> simp [h]
+
 /-- **has_reading (Hexital)** is true exactly when the latest reading is not `None`. -/
 theorem hexital_has_reading_iff (h : Hexital F) (name : String) (v : Val F)
     (hr : h.reading name (-1) = .ok v) : h.hasReading name = .ok (!v.isNone) := by
